@@ -31,8 +31,15 @@ THEOREMS = [
     "Jinns.Minibatch.epoch_covers",
     "Jinns.Minibatch.holdsC09_model",
     "Jinns.Minibatch.holdsC09Active_self",
+    "Jinns.Minibatch.holdsC09Active_model",
+    "Jinns.Minibatch.holdsC09Active_model_of_used",
+    "Jinns.Minibatch.epoch_structureA",
+    "Jinns.Minibatch.active_served_exactly_once_of_dvd",
+    "Jinns.Minibatch.active_not_served_twice_of_dvd",
+    "Jinns.Minibatch.active_covered",
+    "Jinns.Minibatch.inactive_never_served_of_dvd",
 ]
-LEAN_MODULES = ["JinnsProofs.C09", "JinnsProofs.C09Holds"]
+LEAN_MODULES = ["JinnsProofs.C09", "JinnsProofs.C09Holds", "JinnsProofs.C09Active"]
 RULE = ("cases = (generator kind, n, b, number of requests); every cursor owned by the generator is traced "
         "(store snapshot, PRNG-key-consumed flag, batch) with points labelled by their row in the initial store; "
         "each scope is also run with one jitted get_batch (all non-stationary cases, small scopes of the others); "
